@@ -729,13 +729,16 @@ func c09Translate(c *Check, pc *provCtx, sites []statusSite) {
 	if r := c.need("K4", pipelineRel, "statusCollector", "SetStatus"); r != nil {
 		f := p.SSAFunc(r.FI.Obj)
 		msg := "the translating collector does not forward"
+		sawLookup, nSites := false, 0
 		for _, s := range sites {
 			if topFunc(s.fn) != f {
 				continue
 			}
-			msg = ""
+			if nSites == 0 {
+				msg = ""
+			}
+			nSites++
 			os := pc.origins(s.key, s.call, 0, map[ssa.Value]bool{})
-			sawLookup := false
 			for _, o := range os {
 				switch {
 				case o.Kind == "param":
@@ -750,8 +753,46 @@ func c09Translate(c *Check, pc *provCtx, sites []statusSite) {
 					msg = "the forwarded key originates from " + o.String()
 				}
 			}
-			if !sawLookup && msg == "" {
-				msg = "keys are forwarded without reverse translation of rewritten recipients"
+		}
+		if nSites > 0 && !sawLookup && msg == "" {
+			msg = "keys are forwarded without reverse translation of rewritten recipients"
+		}
+		// the untranslated key is forwarded only when the table has no entry for it
+		if msg == "" {
+			info := r.Info
+			var prm types.Object
+			if ps := r.FI.Decl.Type.Params.List; len(ps) >= 1 && len(ps[0].Names) >= 1 {
+				prm = info.Defs[ps[0].Names[0]]
+			}
+			for _, tq := range r.F.Points() {
+				as, ok := tq.Node().(*ast.AssignStmt)
+				if !ok || len(as.Lhs) != 2 || len(as.Rhs) != 1 {
+					continue
+				}
+				ix, ok := ast.Unparen(as.Rhs[0]).(*ast.IndexExpr)
+				if !ok {
+					continue
+				}
+				if fv := fieldOf(info, ix.X); fv == nil || fv.Name() != "originalRcpts" {
+					continue
+				}
+				okObj := objOf(info, as.Lhs[1])
+				rawForward := func(q Pt) bool {
+					for _, call := range callsAt(q.Node()) {
+						if methodName(call) == "SetStatus" && len(call.Args) == 2 && objOf(info, call.Args[0]) == prm && prm != nil {
+							// the parameter may have been overwritten with the translation before
+							if _, n := localDef(info, r.FI.Decl.Body, prm); n == 0 {
+								return true
+							}
+						}
+					}
+					return false
+				}
+				if okObj != nil {
+					if path, f := r.F.ReachRefined(tq, okObj, false, true, rawForward, nil); f {
+						msg = "a recipient that has an entry in the reverse table is still reported under the rewritten address: " + r.F.Describe(path)
+					}
+				}
 			}
 		}
 		c.Hold("K4", "msgpipeline.statusCollector.SetStatus", r.FI.Decl.Pos(), msg == "", msg)
